@@ -896,6 +896,15 @@ fn cmd_seeds(args: &[String]) {
     let to: u64 = arg_val(args, "--to", "100").parse().unwrap();
     let ext = arg_val(args, "--ext", "0") == "1";
     let protos: Vec<usize> = arg_val(args, "--protos", "0,1,2,3,4,5").split(',').filter_map(|x| x.parse().ok()).collect();
+    if ext {
+        // a process that enables the opt-in opcodes has usually generated with default settings before: do so here, so
+        // that anything process-wide that remembers the first configuration is in the picture
+        for &p in &protos {
+            let c = Case { id: 0, proto: p, unsafe_m: false, ext: false, buf: false, min: 60, max: 300, mask: 0,
+                           rate_bits: 0.1f64.to_bits(), mode: Mode::Rand(0), warm: 0, mu: false, muts: None };
+            let _ = c.run();
+        }
+    }
     for seed in from..to {
         for &p in &protos {
             let c = Case {
